@@ -1,4 +1,5 @@
 import Pymc.Proofs.PooledRun
+import Pymc.Proofs.PooledCallExamples
 /-!
 # C09 — sequential use of the connection pool by `PooledClient`
 
@@ -478,3 +479,180 @@ example : ([(0, Body.ok), (3, .ok)] : List (Nat × Body)).Pairwise (fun a b => a
 
 end instantaneous
 end Pooled
+
+/-! ## `PooledClient ∘ Client`: the bodies of the abstract model are outcomes of real `Client.call`s
+
+`Pymc/Model/PooledCall.lean` composes the pool bracket with `Client.call`: the body of every pooled call is the inner
+client's call over a script of what its socket does, and the pooled clients carry their sockets.  The theorems
+below say that this composed model *refines* the abstract one: forgetting the sockets (`St.proj`), one composed
+call is one `Pooled.callT` whose body is `bodyOf` of the inner outcome, and a composed run from the empty pool is
+the abstract run over the history `historyOf …` — so every theorem above holds of the composed model, with `Body`
+no longer an input but computed from what `Client.call` did. -/
+namespace PooledCall
+open Exchange Client Framing
+
+/-- C09 (reading `bodyOf`): the inner outcome counts as `ok` exactly when the method is not `quit`, returned — normally
+or because a read method swallowed the exception under `ignore_exc` — and the inner client still has its socket. -/
+theorem C09_pooled_body_ok_iff (ignoreExc : Bool) (c : Call) (o : CallOut Res) :
+    bodyOf ignoreExc c o = .ok ↔
+      isQuit c = false ∧ o.sockOpen = true ∧
+        ((∃ r, o.res = .ok r) ∨ ∃ e, o.res = .error e ∧ swallows ignoreExc c e = true) := by
+  unfold bodyOf
+  cases isQuit c
+  · rcases o.res with e | r
+    · cases hsw : swallows ignoreExc c e <;> cases o.sockOpen <;> simp [hsw] <;> (try (split <;> simp))
+    · cases o.sockOpen <;> simp
+  · rcases o.res with e | r <;> simp
+
+/-- C09 (refinement, one call).  In any coherent state (`Coh`: a pooled client holds a connection id exactly when it holds
+a socket — an invariant, last clause), forgetting the sockets commutes with one call: the composed call `callP`, whose
+body is `Client.call` on the checked-out inner client, is the abstract call `Pooled.callT` whose body is `bodyOf` of
+that `Client.call`'s outcome.  The same pooled client serves both; and the connection reported by both is the same
+(`IoExact`: unless the method returned without sending anything while its client holds an open socket —
+`get_many([])` —, where the abstract `ok` reports the held connection and the composed model reports none). -/
+theorem C09_pooled_projection (ccfg : Wire.Cfg) (pcfg : Pooled.Cfg) (ignoreExc : Bool) (s : St) (idx now fin : Nat)
+    (c : Call) (sc : Script) (hcoh : Coh s) :
+    (callP ccfg pcfg ignoreExc s idx now fin c sc).1.proj =
+      (Pooled.callT pcfg s.proj now fin (bodyOfObs ignoreExc c (callP ccfg pcfg ignoreExc s idx now fin c sc).2)).1 ∧
+    (callP ccfg pcfg ignoreExc s idx now fin c sc).2.client =
+      (Pooled.callT pcfg s.proj now fin
+        (bodyOfObs ignoreExc c (callP ccfg pcfg ignoreExc s idx now fin c sc).2)).2.client ∧
+    (IoExact (callP ccfg pcfg ignoreExc s idx now fin c sc).2 →
+      (callP ccfg pcfg ignoreExc s idx now fin c sc).2.io =
+        (Pooled.callT pcfg s.proj now fin
+          (bodyOfObs ignoreExc c (callP ccfg pcfg ignoreExc s idx now fin c sc).2)).2.io) ∧
+    (∀ st, (callP ccfg pcfg ignoreExc s idx now fin c sc).2.step = some st →
+      bodyOfObs ignoreExc c (callP ccfg pcfg ignoreExc s idx now fin c sc).2 = bodyOf ignoreExc c st.out ∧
+      ∃ so left, st.out = Client.call ccfg false so c { sc with evs := available so left sc.evs }) ∧
+    Coh (callP ccfg pcfg ignoreExc s idx now fin c sc).1 := by
+  obtain ⟨p1, p2, p3⟩ := callP_proj ccfg pcfg ignoreExc s idx now fin c sc hcoh
+  refine ⟨p1, p2, fun h => p3 (fun st r h1 h2 h3 => h st r h1 h2 h3), fun st hst => ⟨?_, ?_⟩,
+    coh_callP ccfg pcfg ignoreExc s idx now fin c sc hcoh⟩
+  · simp only [bodyOfObs, hst]
+  · rcases callP_spec ccfg pcfg ignoreExc s idx now fin c sc with ⟨s1, hg, hr⟩ | ⟨s1, cl, hg, hstep, -, -, -⟩
+    · rw [hr] at hst; simp at hst
+    · rw [hstep] at hst
+      obtain rfl := Option.some.inj hst
+      exact ⟨cl.sockOpen, cl.pipe.map (·.2), stepTagged_out ccfg idx cl.sockOpen cl.pipe c sc⟩
+
+/-- non-vacuity of `C09_pooled_projection`: the empty pool is coherent, and so is a state with an idle connected client. -/
+example : Coh {} ∧ Coh { free := [{ id := 0, sockOpen := true, conn := some 0, lastUsed := 3 }], nextClient := 1, nextConn := 1 } := by
+  refine ⟨coh_init, ?_⟩
+  intro cl h
+  simp only [List.mem_singleton, List.not_mem_nil, or_false] at h
+  subst h; rfl
+
+/-- C09 (refinement, runs).  Run any history `calls` on a fresh `PooledClient` and let `evs` be the timed history of the
+abstract model it gives rise to: entry `i` is the checkout time, the release time and `bodyOfObs` of the `i`-th
+observation, i.e. `bodyOf` of the `i`-th inner `Client.call` outcome.  Then after every number `n` of calls the
+composed state projects onto the abstract state `(runT pcfg {} (evs.take n)).1`, and call `i` is served by the same
+pooled client (on the same connection, `IoExact`) in both runs.  Hence every `C09_…T` theorem above, instantiated
+with `evs`, is a theorem about sequences of real `Client.call`s under the pool bracket. -/
+theorem C09_pooled_run_projection (ccfg : Wire.Cfg) (pcfg : Pooled.Cfg) (ignoreExc : Bool) (calls : List PCall) :
+    (historyOf ignoreExc calls (runP ccfg pcfg ignoreExc {} 0 calls).2).length = calls.length ∧
+    (∀ (i : Nat) (c : Call) (sc : Script) (now fin : Nat) (ob : PObs),
+      calls[i]? = some (c, sc, now, fin) → (runP ccfg pcfg ignoreExc {} 0 calls).2[i]? = some ob →
+      (historyOf ignoreExc calls (runP ccfg pcfg ignoreExc {} 0 calls).2)[i]? = some (now, fin, bodyOfObs ignoreExc c ob)) ∧
+    (∀ n, (runP ccfg pcfg ignoreExc {} 0 (calls.take n)).1.proj =
+      (Pooled.runT pcfg {} ((historyOf ignoreExc calls (runP ccfg pcfg ignoreExc {} 0 calls).2).take n)).1) ∧
+    (∀ (i : Nat) (ob : PObs), (runP ccfg pcfg ignoreExc {} 0 calls).2[i]? = some ob →
+      ∃ o : Pooled.CallObs,
+        (Pooled.runT pcfg {} (historyOf ignoreExc calls (runP ccfg pcfg ignoreExc {} 0 calls).2)).2[i]? = some o ∧
+        o.client = ob.client ∧ (IoExact ob → o.io = ob.io)) :=
+  ⟨historyOf_length ignoreExc calls _ (runP_length ccfg pcfg ignoreExc {} 0 calls),
+   fun i c sc now fin ob hc ho => historyOf_getElem ignoreExc calls _ i c sc now fin ob hc ho,
+   fun n => runP_proj_take ccfg pcfg ignoreExc calls n,
+   (runP_proj ccfg pcfg ignoreExc {} 0 calls coh_init).2.2⟩
+
+/-- non-vacuity of `C09_pooled_run_projection`: the bodies computed for the five-call history
+`PooledCallExamples.demoCalls` (`version`; `get` answered `ERROR`; `version`; `set` answered `ERROR`; `version`) with and
+without `ignore_exc`, and for `PooledCallExamples.faultCalls` (send failure; reply cut by a timeout; `get_many([])`). -/
+example :
+    (historyOf true PooledCallExamples.demoCalls (runP {} ⟨1, 0⟩ true {} 0 PooledCallExamples.demoCalls).2).map (·.2.2) =
+      [.ok, .failSwallowed false, .ok, .fail false, .ok] ∧
+    (historyOf false PooledCallExamples.demoCalls (runP {} ⟨1, 0⟩ false {} 0 PooledCallExamples.demoCalls).2).map (·.2.2) =
+      [.ok, .fail false, .ok, .fail false, .ok] ∧
+    (historyOf true PooledCallExamples.faultCalls (runP {} ⟨1, 0⟩ true {} 0 PooledCallExamples.faultCalls).2).map (·.2.2) =
+      [.ok, .failSwallowed false, .fail true, .failSwallowed false, .ok] :=
+  ⟨PooledCallExamples.demo_ignoreExc.2.2.2, PooledCallExamples.demo_strict.2.2, PooledCallExamples.demo_faults.2.2.2⟩
+
+/-- C09 (invariants of the composed model).  After every call of every history on a fresh `PooledClient` — whatever the
+connection does during the inner calls — the projected state satisfies `Pooled.Inv`; in particular no client is
+checked out, at most one client is idle, no connection is closed twice, and every connection ever opened is closed or
+held by the idle client (`C09_no_leakT`); and the state is coherent. -/
+theorem C09_pooled_invariants (ccfg : Wire.Cfg) (pcfg : Pooled.Cfg) (ignoreExc : Bool) (calls : List PCall) (n : Nat) :
+    Pooled.Inv (runP ccfg pcfg ignoreExc {} 0 (calls.take n)).1.proj ∧
+    (runP ccfg pcfg ignoreExc {} 0 (calls.take n)).1.used = [] ∧
+    (runP ccfg pcfg ignoreExc {} 0 (calls.take n)).1.free.length ≤ 1 ∧
+    (runP ccfg pcfg ignoreExc {} 0 (calls.take n)).1.closed.Nodup ∧
+    Coh (runP ccfg pcfg ignoreExc {} 0 (calls.take n)).1 := by
+  obtain ⟨h1, h2, -⟩ := runP_proj ccfg pcfg ignoreExc {} 0 (calls.take n) coh_init
+  have hI : Pooled.Inv (runP ccfg pcfg ignoreExc {} 0 (calls.take n)).1.proj := by
+    rw [h1]; exact Pooled.inv_runT _ Pooled.inv_init
+  refine ⟨hI, used_nil_of_proj hI.used_nil, ?_, hI.closed_nodup, h2⟩
+  rw [← free_length_proj]; exact hI.free_le
+
+/-- non-vacuity of `C09_pooled_invariants`: the final state of the demo run (client 1 idle on connection 2, connections 0
+and 1 closed, nobody checked out). -/
+example : PooledCallExamples.poolSummary (runP {} ⟨1, 0⟩ true {} 0 PooledCallExamples.demoCalls) =
+    ([(1, some 2, true, 0)], [0, 1], 0) := PooledCallExamples.demo_ignoreExc.2.1
+
+/-- C09 (3) for the composed model: a connection on which a call failed is closed and never handed out again.
+Let pooled call `i` have sent its commands on connection `k` (`ob.io = some k`) and let its inner outcome not count
+as `ok` (`C09_pooled_body_ok_iff`: the inner client lost its socket — every exception raised inside an exchange closes
+it, C01 —, or the method raised, or it was `quit`).  Then after every later call `k` is closed and no idle client holds
+it, and no later call sends anything on `k`. -/
+theorem C09_pooled_failed_conn_never_reused (ccfg : Wire.Cfg) (pcfg : Pooled.Cfg) (ignoreExc : Bool) (calls : List PCall)
+    (i : Nat) (c : Call) (sc : Script) (now fin : Nat) (ob : PObs) (k : Nat)
+    (hc : calls[i]? = some (c, sc, now, fin)) (ho : (runP ccfg pcfg ignoreExc {} 0 calls).2[i]? = some ob)
+    (hb : bodyOfObs ignoreExc c ob ≠ .ok) (hio : ob.io = some k) :
+    (∀ n, i < n → k ∈ (runP ccfg pcfg ignoreExc {} 0 (calls.take n)).1.closed ∧
+      ∀ cl ∈ (runP ccfg pcfg ignoreExc {} 0 (calls.take n)).1.free, cl.conn ≠ some k) ∧
+    (∀ j ob', i < j → (runP ccfg pcfg ignoreExc {} 0 calls).2[j]? = some ob' → ob'.io ≠ some k) := by
+  obtain ⟨-, hhist, hstate, hobs⟩ := C09_pooled_run_projection ccfg pcfg ignoreExc calls
+  -- an observation that reports a connection is exact
+  have hexact : ∀ (j : Nat) (ob' : PObs), (runP ccfg pcfg ignoreExc {} 0 calls).2[j]? = some ob' → ob'.io = some k →
+      IoExact ob' := by
+    intro j ob' hj hk st r hst _ _ hsent
+    obtain ⟨_, _, _, _, _, h⟩ := runP_steps ccfg pcfg ignoreExc {} 0 calls j ob' hj
+    rw [(h st hst).2.2 hsent] at hk
+    cases hk
+  generalize hev : historyOf ignoreExc calls (runP ccfg pcfg ignoreExc {} 0 calls).2 = evs at hhist hstate hobs
+  have he := hhist i c sc now fin ob hc ho
+  obtain ⟨o, ho1, -, ho3⟩ := hobs i ob ho
+  have hoio : o.io = some k := by rw [ho3 (hexact i ob ho hio)]; exact hio
+  -- the body is not `rejected`: the abstract observation reports a connection
+  have hbody : (∃ x, bodyOfObs ignoreExc c ob = .fail x) ∨ (∃ x, bodyOfObs ignoreExc c ob = .failSwallowed x) ∨
+      bodyOfObs ignoreExc c ob = .quitOk ∨ (∃ x, bodyOfObs ignoreExc c ob = .quitFail x) := by
+    cases hbo : bodyOfObs ignoreExc c ob with
+    | ok => exact absurd hbo hb
+    | fail x => exact .inl ⟨x, rfl⟩
+    | failSwallowed x => exact .inr (.inl ⟨x, rfl⟩)
+    | rejected =>
+      rw [hbo] at he
+      rw [Pooled.runT_obs he] at ho1
+      obtain rfl := Option.some.inj ho1
+      rw [Pooled.callT_rejected_io] at hoio
+      cases hoio
+    | quitOk => exact .inr (.inr (.inl rfl))
+    | quitFail x => exact .inr (.inr (.inr ⟨x, rfl⟩))
+  obtain ⟨t1, t2⟩ := Pooled.C09_failed_conn_never_reusedT pcfg evs i now fin _ o k he hbody ho1 hoio
+  refine ⟨fun n hn => ?_, fun j ob' hj hoj hk => ?_⟩
+  · obtain ⟨a, b⟩ := t1 n hn
+    rw [← hstate n] at a b
+    refine ⟨a, fun cl hcl hk => b cl.proj ?_ hk⟩
+    exact List.mem_map.mpr ⟨cl, hcl, rfl⟩
+  · obtain ⟨o', ho'1, -, ho'3⟩ := hobs j ob' hoj
+    exact t2 j o' hj ho'1 (by rw [ho'3 (hexact j ob' hoj hk)]; exact hk)
+
+/-- non-vacuity of `C09_pooled_failed_conn_never_reused`: in the demo run with `ignore_exc`, call 1 (`get` answered `ERROR`,
+swallowed) used connection 0 and its body is `failSwallowed`; call 2 is served by the same client on connection 1. -/
+example :
+    PooledCallExamples.demoCalls[1]? = some (.get (.bytes [107]), { evs := [.data PooledCallExamples.errorLine] }, 1, 1) ∧
+    ((runP {} ⟨1, 0⟩ true {} 0 PooledCallExamples.demoCalls).2[1]?.map fun ob =>
+      (bodyOfObs true (.get (.bytes [107])) ob, ob.io)) = some (.failSwallowed false, some 0) ∧
+    ((runP {} ⟨1, 0⟩ true {} 0 PooledCallExamples.demoCalls).2.map fun ob => (ob.client, ob.io)) =
+      [(some 0, some 0), (some 0, some 0), (some 0, some 1), (some 0, some 1), (some 1, some 2)] :=
+  ⟨rfl, by decide +kernel, by decide +kernel⟩
+
+end PooledCall
